@@ -4,8 +4,11 @@ C02 — A patch never touches configuration outside the generators' ACL.
 Model: `Model/AclDiff.lean` (`applyAclDiff` = `apply_acl_diff`, `makeDiffAcl`, `deviceModeAcl` =
 `_diff_and_patch` with an ACL) on top of the ACL model (C06), the diff/patch model (C03/C08) and the
 device specification (C01).  Clauses of the property:
- (a) provenance form, proved: every diff entry that survives the ACL — hence every command, each of
-     which is produced from one such entry — has a row the ACL matches at every level of its path.
+ (a) provenance form, proved end to end (`C02_device_patch_provenance`): every item of the patch tree, at every
+     depth, stems from an entry of the ACL-filtered diff (`Patch.ProvT`: it is the entry's row, the removal
+     command of a REMOVED/MOVED entry, or the `commit` of a `%force_commit` rule — nothing else can appear in a
+     patch built by the common logics), and every such entry has a row the ACL matches at every level of its
+     path and is deletable if REMOVED (`Covered`).
      The *text* reading (the command text itself is matched by the ACL) is false of the code when the
      ACL rule is longer than the removal command: `C02_paths_covered_false` (finding F02a).
  (b) proved at the level of the device specification: commands on other (rule, key) slots leave a line,
@@ -16,9 +19,13 @@ device specification (C01).  Clauses of the property:
      AFFECTED, and no common logic emits a removal unless the REMOVED/MOVED bucket is non-empty.
 -/
 import AnnetModel.Lemmas.AclDiff
+import AnnetModel.Lemmas.Provenance
 
 /-! OBLIGATIONS
 Annet.AclDiff.C02_commands_address_covered
+Annet.AclDiff.C02_patch_provenance
+Annet.AclDiff.C02_device_patch_provenance
+Annet.AclDiff.C02_patch_provenance_nonvacuous
 Annet.AclDiff.C02_acl_diff_only_drops
 Annet.AclDiff.C02_acl_diff_ops
 Annet.AclDiff.C02_cant_delete_never_removed
@@ -33,6 +40,28 @@ open Annet Annet.Diff
 theorem C02_commands_address_covered (v : Acl.Vendor) (rules : Acl.Rules) (d d' : List DItem)
     (h : applyAclDiff v rules d = .ok d') : Lemmas.Covered v rules d' :=
   Lemmas.acl_diff_covered v rules d d' h
+
+/-- (a), from the diff to the patch: every item of the patch `make_patch(make_pre(d))` builds with the common logic
+functions stems, level by level, from an entry of `d` (`Spec/Provenance.lean`). -/
+theorem C02_patch_provenance (v : Rules.Vendor) (ordering : List Rules.ORule) (doCommit : Bool) (d : List DItem)
+    (p : Patch.PTree) (h : Patch.makePatch v ordering doCommit (Patch.makePre d) = .ok p) : Patch.ProvT v d p :=
+  Patch.patch_provenance v ordering doCommit d p h
+
+/-- (a), end to end over `_diff_and_patch` with an ACL: there is a diff every entry of which is covered level by
+level (and deletable if REMOVED) from whose entries every command of the patch stems, at every depth. -/
+theorem C02_device_patch_provenance (pv : Rules.Vendor) (av : Acl.Vendor) (acl : Acl.Rules) (rules : Rules.PRules)
+    (ordering : List Rules.ORule) (old new : Cfg) (r : Api.Result)
+    (h : deviceModeAcl Patch.runLogic pv av acl rules ordering old new = .ok r) :
+    ∃ d, Lemmas.Covered av acl d ∧ Patch.ProvT pv d r.patch :=
+  device_patch_provenance pv av acl rules ordering old new r h
+
+/-- Non-vacuity: a two-level diff (an affected block with an added and a removed child, a removed top-level row)
+whose patch is computed in the kernel and to which the provenance theorem applies. -/
+theorem C02_patch_provenance_nonvacuous :
+    Patch.makePatch Patch.ProvExample.v [] true (Patch.makePre Patch.ProvExample.d) = .ok Patch.ProvExample.p ∧
+    Patch.ProvT Patch.ProvExample.v Patch.ProvExample.d Patch.ProvExample.p :=
+  ⟨Patch.ProvExample.patch_eq,
+   Patch.patch_provenance Patch.ProvExample.v [] true Patch.ProvExample.d Patch.ProvExample.p Patch.ProvExample.patch_eq⟩
 
 /-- the ACL only drops diff entries: it adds none and keeps their order -/
 theorem C02_acl_diff_only_drops (v : Acl.Vendor) (rules : Acl.Rules) (d d' : List DItem)
